@@ -45,7 +45,7 @@ var Metas = map[string]*Meta{
 			"map iteration order inside ForEach is chosen by the simulator through the verif-tagged hook trie.SimKeyOrder; verdicts do not depend on the hook being reached",
 		},
 		Components: map[string]any{"real": []string{"biostuff trie (built from /repo's working tree with -tags verif)", "encoding/json"}, "simulated_environment": []string{"the caller: operation history, restart points, buffer reuse", "map iteration order in trie.keys() via the guarded hook"}, "stubbed": []string{}},
-		Runs:       map[string]int{"quick": 150000, "thorough": 3500000},
+		Runs:       map[string]int{"quick": 100000, "thorough": 3500000},
 		Run:        RunC15,
 	},
 	"C16": {
